@@ -57,7 +57,7 @@ REQUIRED = ["tables_exhaustive", "tables_random", "is_single_root_checked", "has
             "is_sorted_checked", "is_bifurcate_checked", "cyclic_tables", "forest_tables",
             "dsu_histories", "dsu_pair_queries", "dsu_invariant_evaluations", "repair_off",
             "repair_somas", "repair_nearest", "repair_table_functions", "repair_three_or_more_roots",
-            "step_budget_calls"]
+            "step_budget_calls", "frames_with_other_index", "rejected_calls_before_has_cyclic"]
 FLOOR = {"quick": 1200, "thorough": 100000}
 SHARDS = {"quick": 8, "thorough": 16}
 TIMEOUT = {"quick": 300, "thorough": 3000}
@@ -150,7 +150,24 @@ def check_table(ctx, case):
 
     df = _df(ids, pids)
     call("is_single_root", lambda: su.is_single_root(df), conn)
+    if n >= 2:
+        # the same rows in a frame whose index is not 0..n-1 in row order (rows re-ordered or
+        # filtered without reset_index, a frame indexed by something else): same table, same answer
+        h_ = int(ids.sum() * 31 + pids.sum() * 17 + n)
+        order = np.random.default_rng(h_ % (2**32)).permutation(n)
+        ctx.count("frames_with_other_index")
+        call("is_single_root", lambda: su.is_single_root(df.iloc[order]), conn)
+        df3 = df.copy()
+        df3.index = (np.arange(n)[::-1] * 3 + 1) if h_ % 2 else (ids + 1)
+        call("is_single_root", lambda: su.is_single_root(df3), conn)
     if perm:
+        if int(ids.sum() + pids.sum()) % 3 == 0:
+            # an earlier call the checker rejects (the same table still carrying 1-based ids:
+            # outside the documented 0..n-1), caught by the caller
+            try:
+                su.has_cyclic((ids + 1, np.where(pids >= 0, pids + 1, -1)))
+            except Exception:
+                ctx.count("rejected_calls_before_has_cyclic")
         call("has_cyclic", lambda: su.has_cyclic((ids, pids)), cyc)
     if positional:
         call("is_sorted", lambda: su.is_sorted((ids, pids)), bool(np.all(pids < ids)))
